@@ -24,6 +24,10 @@ CLAIMS = {
     "C14": ("5.C14", "stop(n)/stop_all on SimpleTaskPool histories with gaps; returned ids vs ledger, exactly those workers observe one cancellation."),
     "C15": ("5.C15", "Directed family over (class, old size, new size, running, waiting) x seeded timing: getter vs configured maximum, limit in force after assignment, wake-up of waiting spawners, negative values. Reports the recorded finding F-SIZE; every other oracle is strict."),
     "C20": ("5.C20", "Real Queue on the simulated loop with gated consumer bodies, joiners and bounded queues; join() completion vs the harness count of exited blocks, qsize after every handle; consumer cancellation placed at every handle boundary (pairs on short runs)."),
+    "C16": ("5.C16", "Real server/session/parser over the simulated network: handshake under fragmentation/latency/concurrent clients for stock and shim classes (+subclasses with extra members), tcp and unix, terminal widths 1..500; help of every public member and the top-level command list. Reports the recorded finding F-C16 for the stock classes."),
+    "C17": ("5.C17", "Twin runs: each seeded command program is executed through a session over the simulated network and as the equivalent direct calls in an identical simulation; replies, pool observables and worker start records are compared command by command."),
+    "C18": ("5.C18", "Seeded valid and mutated lines, pipelined and fragmented, in 1-4 concurrent sessions: one server write per line in order, no session exception, usage/error replies leave the pool unchanged, nothing printed, no SystemExit, replies carry no foreign token, short reply after long help."),
+    "C19": ("5.C19", "Seeded server lifecycles over tcp/unix with 0-4 raw and bundled clients, every disconnect kind (close, exit, EOF, reset, vanish) and the stop swept over handle boundaries: serve_forever promptness, undisturbed sessions, completion of the cancelled serving task, refused connects, socket file removed."),
 }
 
 NOT_YET = {}
@@ -55,6 +59,8 @@ def build():
         "engines": [
             {"name": "tpsim-pool", "path": "tpsim/pool_engine.py", "serves_properties": [p for p in sorted(CLAIMS) if int(p[1:]) <= 15],
              "kind_free_text": "deterministic simulation: real pool code on SimLoop with harness-owned user code"},
+            {"name": "tpsim-control", "path": "tpsim/ctl_engine.py", "serves_properties": [p for p in sorted(CLAIMS) if 16 <= int(p[1:]) <= 19],
+             "kind_free_text": "deterministic simulation: real control server/session/parser/client + asyncio streams over an in-memory network"},
             {"name": "tpsim-queue", "path": "tpsim/queue_engine.py", "serves_properties": [p for p in sorted(CLAIMS) if int(p[1:]) == 20],
              "kind_free_text": "deterministic simulation: real Queue on SimLoop with harness-owned producers/consumers"},
         ],
